@@ -403,7 +403,8 @@ QueueStep(x, n) ==
                                       THEN WithS(xb, [s1 EXCEPT !.wc = WcInsert(@, [idx |-> idx, term |-> s.term, cb |-> q.cb])])
                                       ELSE WithS(xb, s1)
                            x2 == IF UseBatch THEN x1 ELSE SendAppendEntries(x1, n)
-                       IN QueueStep(x2, n)
+                           \* the drain loop has a time budget too: if the send loop used up more than appendEntriesPeriod, it ends
+                       IN IF (~UseBatch) /\ x2.cutHit THEN x2 ELSE QueueStep(x2, n)
                   ELSE QueueStep(ErrCallback(chg.x, n, q.cb, REQUEST_DENIED), n)
           ELSE IF s.leader # Nil
           THEN IF q.cb.k = "fwd"
@@ -432,7 +433,10 @@ CompactStep(x, n, orc) ==
               la == EntriesFromN(s3, s3.applied - 1, 2)
           IN IF Len(la) < 2 \/ la[1].idx = s3.lse THEN WithS(x, s3)
              ELSE LET content == [size |-> orc.size, last |-> la[2], prev |-> la[1], hist |-> s3.hist,
-                                  cluster |-> s3.others \cup (IF n \in Observers THEN {} ELSE {n}), ver |-> s3.ver]
+                                  cluster |-> s3.others \cup (IF n \in Observers THEN {} ELSE {n}), ver |-> s3.ver,
+                                  \* the member set is the CURRENT view: it includes membership entries appended after the
+                                  \* snapshot position (known finding KF6); remember whether there were any
+                                  ahead |-> \E q \in 1..Len(s3.log) : s3.log[q].idx > la[2].idx /\ IsMemb(s3.log[q].cmd)]
                       s4 == [s3 EXCEPT !.serId = la[1].idx, !.snap = orc.sid, !.serPid = -1]
                   IN [WithS(x, s4) EXCEPT !.news = Append(@, [sid |-> orc.sid, content |-> content])]
 
